@@ -7,17 +7,93 @@ use sophia_iri::relativize::Relativizer;
 use sophia_iri::resolve::BaseIri;
 use sophia_iri::{is_absolute_iri_ref, is_valid_iri_ref, Iri};
 
-fn tails(maxlen: usize) -> Vec<String> {
-    let alpha = ['a', 'b', '/', '.', ':', '?', '#'];
+fn tails(maxlen: usize) -> Vec<String> { tails_over(&['a', 'b', '/', '.', ':', '?', '#'], maxlen) }
+fn tails_over(alpha: &[char], maxlen: usize) -> Vec<String> {
+    let alpha = alpha.to_vec();
     let mut all = vec![String::new()];
     let mut frontier = vec![String::new()];
     for _ in 0..maxlen {
         let mut next = vec![];
-        for s in &frontier { for c in alpha { let mut t = s.clone(); t.push(c); next.push(t); } }
+        for s in &frontier { for c in alpha.iter().copied() { let mut t = s.clone(); t.push(c); next.push(t); } }
         all.extend(next.iter().cloned());
         frontier = next;
     }
     all
+}
+
+/// RFC 3986 section 5.2 (strict), written from the RFC text: used as an oracle INDEPENDENT of sophia_iri::resolve
+fn split5(s: &str) -> (Option<&str>, Option<&str>, &str, Option<&str>, Option<&str>) {
+    // appendix B: ^(([^:/?#]+):)?(//([^/?#]*))?([^?#]*)(\?([^#]*))?(#(.*))?
+    let mut rest = s;
+    let mut scheme = None;
+    if let Some(i) = rest.find(|c| c == ':' || c == '/' || c == '?' || c == '#') { if rest.as_bytes()[i] == b':' && i > 0 { scheme = Some(&rest[..i]); rest = &rest[i + 1..]; } }
+    let mut authority = None;
+    if rest.starts_with("//") { let r2 = &rest[2..]; let e = r2.find(|c| c == '/' || c == '?' || c == '#').unwrap_or(r2.len()); authority = Some(&r2[..e]); rest = &r2[e..]; }
+    let pe = rest.find(|c| c == '?' || c == '#').unwrap_or(rest.len());
+    let path = &rest[..pe]; rest = &rest[pe..];
+    let mut query = None;
+    if rest.starts_with('?') { let e = rest.find('#').unwrap_or(rest.len()); query = Some(&rest[1..e]); rest = &rest[e..]; }
+    let fragment = if rest.starts_with('#') { Some(&rest[1..]) } else { None };
+    (scheme, authority, path, query, fragment)
+}
+fn remove_dot_segments(path: &str) -> String {
+    let mut input = path.to_string();
+    let mut out = String::new();
+    while !input.is_empty() {
+        if input.starts_with("../") { input.drain(..3); }
+        else if input.starts_with("./") { input.drain(..2); }
+        else if input.starts_with("/./") { input.replace_range(..3, "/"); }
+        else if input == "/." { input = "/".into(); }
+        else if input.starts_with("/../") { input.replace_range(..4, "/"); if let Some(i) = out.rfind('/') { out.truncate(i); } else { out.clear(); } }
+        else if input == "/.." { input = "/".into(); if let Some(i) = out.rfind('/') { out.truncate(i); } else { out.clear(); } }
+        else if input == "." || input == ".." { input.clear(); }
+        else {
+            let start = if input.starts_with('/') { 1 } else { 0 };
+            let e = input[start..].find('/').map(|i| i + start).unwrap_or(input.len());
+            out.push_str(&input[..e]);
+            input.drain(..e);
+        }
+    }
+    out
+}
+fn rfc3986_resolve(base: &str, r: &str) -> String {
+    let (bs, ba, bp, bq, _) = split5(base);
+    let (rs, ra, rp, rq, rf) = split5(r);
+    let (ts, ta, tp, tq);
+    if rs.is_some() { ts = rs; ta = ra; tp = remove_dot_segments(rp); tq = rq; }
+    else {
+        if ra.is_some() { ta = ra; tp = remove_dot_segments(rp); tq = rq; }
+        else {
+            if rp.is_empty() { tp = bp.to_string(); tq = if rq.is_some() { rq } else { bq }; }
+            else {
+                if rp.starts_with('/') { tp = remove_dot_segments(rp); }
+                else {
+                    let merged = if ba.is_some() && bp.is_empty() { format!("/{}", rp) } else { match bp.rfind('/') { Some(i) => format!("{}{}", &bp[..=i], rp), None => rp.to_string() } };
+                    tp = remove_dot_segments(&merged);
+                }
+                tq = rq;
+            }
+            ta = ba;
+        }
+        ts = bs;
+    }
+    let mut out = String::new();
+    if let Some(x) = ts { out.push_str(x); out.push(':'); }
+    if let Some(x) = ta { out.push_str("//"); out.push_str(x); }
+    out.push_str(&tp);
+    if let Some(x) = tq { out.push('?'); out.push_str(x); }
+    if let Some(x) = rf { out.push('#'); out.push_str(x); }
+    out
+}
+
+/// the independent oracle is only used where the resolver in use (oxiri) follows RFC 3986 5.2 to the letter on the
+/// unchanged tree: bases with an authority and no dot segment, references without scheme and without authority
+/// (elsewhere oxiri keeps dot segments of the base / of absolute references, and treats rootless bases differently:
+/// C09's subject, not C17's)
+fn oracle_applies(base: &str, r: &str) -> bool {
+    let (_, ba, bp, _, _) = split5(base);
+    let (rs, ra, _, _, _) = split5(r);
+    ba.is_some() && rs.is_none() && ra.is_none() && !bp.split('/').any(|seg| seg == "." || seg == "..")
 }
 
 fn shortest_ref(base: &BaseIri<String>, iri: &str) -> Option<String> {
@@ -69,7 +145,9 @@ fn main() {
                         else {
                             let back: String = base.resolve(r.as_str()).map(|i| i.as_str().to_string()).unwrap_or_else(|e| format!("<resolve error {e}>"));
                             let ups = r.split('/').take_while(|s| *s == "..").count();
-                            if back != iri_s { Some(format!("resolve(base, {:?}) = {:?}", r, back)) }
+                            let rfc = rfc3986_resolve(&base_s, &r);
+                            if oracle_applies(&base_s, &r) && rfc != iri_s { Some(format!("RFC 3986 5.2 resolves {:?} to {:?} (sophia_iri::resolve gives {:?})", r, rfc, back)) }
+                            else if back != iri_s { Some(format!("resolve(base, {:?}) = {:?}", r, back)) }
                             else if ups > parents as usize { Some(format!("{:?} uses {} parent steps", r, ups)) }
                             else { None }
                         }
@@ -87,7 +165,7 @@ fn main() {
     // fragments than the tails above reach, bases with an empty path, and non-ASCII characters before the cut
     let bases2 = ["s://h/a/b/c/d", "s://h/a/b/c/d?q", "s://h/a/b/c/d?q#f", "s://h/a/b/c/d#f", "s://h/a/", "s://h/a/?q", "s://h/", "s://h/?q#f",
         "s://h", "s://h?q", "s://h#f", "s://h?q#f", "s:", "s:?q", "s:?q#f", "s:#f", "s:a", "s:a?q", "s:/a?q#f", "s:a/b?q",
-        "s://h/a/c:d?q", "s://h/a/c:d", "s:a:b?q", "s:/c:d?", "s://h/b?q?r", "s://h/b?x/y?z", "s://h?q?r", "s:a/b?q?r#f?g", "s://h/b/./c?q", "s://h/a/../c?q",
+        "s://h/ns#", "s://h/a/b?q#", "s://h#", "s://h/a/c:d?q", "s://h/a/c:d", "s:a:b?q", "s:/c:d?", "s://h/b?q?r", "s://h/b?x/y?z", "s://h?q?r", "s:a/b?q?r#f?g", "s://h/b/./c?q", "s://h/a/../c?q",
         "s://\u{e9}\u{e9}/a", "s://\u{e9}\u{e9}/a?q", "s://h/\u{e9}/\u{fc}/d", "s://h/\u{e9}/\u{fc}/d?q#f", "s:\u{65e5}\u{672c}/\u{8a9e}/d", "s:\u{65e5}\u{672c}/\u{8a9e}/d?\u{e9}"];
     let suffixes = ["", "?", "?q", "?qq", "?r", "#", "#f", "#ff", "#g", "?q#f", "?qq#ff", "?#", "?q#", "?\u{e9}", "#\u{e9}", "?q?r", "?q?x", "?x/y?z", "?x/y", "?q?"];
     for base_s in bases2 {
@@ -114,7 +192,9 @@ fn main() {
                     Ok(Some(r)) => {
                         let back: String = base.resolve(r.as_str()).map(|i| i.as_str().to_string()).unwrap_or_else(|e| format!("<resolve error {e}>"));
                         let ups = r.split('/').take_while(|s| *s == "..").count();
-                        if !is_valid_iri_ref(&r) { Some(format!("result {:?} is not a valid IRI reference", r)) }
+                        let rfc = rfc3986_resolve(base_s, &r);
+                        if oracle_applies(base_s, &r) && rfc != iri_s { Some(format!("RFC 3986 5.2 resolves {:?} to {:?} (sophia_iri::resolve gives {:?})", r, rfc, back)) }
+                        else if !is_valid_iri_ref(&r) { Some(format!("result {:?} is not a valid IRI reference", r)) }
                         else if back != iri_s { Some(format!("resolve(base, {:?}) = {:?}", r, back)) }
                         else if ups > parents as usize { Some(format!("{:?} uses {} parent steps", r, ups)) }
                         else { None }
@@ -123,6 +203,27 @@ fn main() {
                 if let Some(p) = problem {
                     findings += 1;
                     println!("{{\"mismatch\":{:?},\"base\":{:?},\"iri\":{:?},\"parents\":{}}}", p, base_s, iri_s, parents);
+                    if only_first { std::process::exit(1); }
+                }
+            }
+        }
+    }
+    // family 3: sophia_iri's resolver against the independent RFC 3986 5.2 oracle, for every base of family 2 and
+    // references of <= 4 characters over {a, /, ., ?, #, :} plus a few longer ones
+    {
+        let mut refs = tails_over(&['a', '/', '.', '?', '#', ':'], 4);
+        refs.extend(["../../a", "./a/../b", "a/./b/../c", "//h2/x", "//h2", "?q#f", "s:x/../y", "../a?q#f", "a/b/c/../../d", "/../a", "/./a/.", "a/..", "a/."].iter().map(|s| s.to_string()));
+        for base_s in bases2 {
+            let Ok(base) = BaseIri::new(base_s.to_string()) else { continue; };
+            for r in &refs {
+                if !is_valid_iri_ref(r) || !oracle_applies(base_s, r) { continue; }
+                n += 1;
+                let want = rfc3986_resolve(base_s, r);
+                let got = std::panic::catch_unwind(|| base.resolve(r.as_str()).map(|i| i.as_str().to_string()));
+                let bad = match got { Err(_) => Some("panic".to_string()), Ok(Err(e)) => if is_absolute_iri_ref(&want) && is_valid_iri_ref(&want) { Some(format!("error {}", e)) } else { None }, Ok(Ok(g)) => if g != want { Some(format!("{:?}", g)) } else { None } };
+                if let Some(b) = bad {
+                    findings += 1;
+                    println!("{{\"mismatch\":\"BaseIri::resolve differs from RFC 3986 5.2\",\"base\":{:?},\"reference\":{:?},\"got\":{:?},\"rfc\":{:?}}}", base_s, r, b, want);
                     if only_first { std::process::exit(1); }
                 }
             }
